@@ -170,7 +170,21 @@ Definition implb_list (a b : list bool) : bool :=
 
 Definition indexed_leaves (l : list (bool * Q * Q)) : list (nat * (bool * Q * Q)) := combine (seq 0 (length l)) l.
 
-Definition C17_check (i : C17_in) (o : C17_out) : bool :=
+(* the hypotheses of the C17 theorems, asserted on every generated instance: a case that does not satisfy them
+   is a DISAGREEMENT (it is not silently skipped) *)
+Definition hyp_ok (i : C17_in) : bool :=
+  match i with
+  | IEg w e => Nat.eqb (length w) (length e) && forallb (Qle_bool 0) w && Qltb 0 (qsum w) && forallb (Qltb 0) e
+  | IWin win _ => match win with [] => false | _ => true end                       (* W >= 1 *)
+  | IApfl a0 _ _ => Qle_bool 0 a0 && Qle_bool a0 1
+  | IClip bound _ _ cl => Qle_bool 0 bound && forallb (fun c : mclient => Qle_bool 0 (snd c) && Qle_bool 0 (fst (fst c))) cl
+  | IClipD bound _ n => Qle_bool 0 bound && Qle_bool 0 n
+  | ICluster K _ _ P T cl => Nat.eqb (length P) K && Nat.eqb (length T) K && forallb (fun c : hclient => Qle_bool 0 (snd (fst c))) cl
+  | IArgmin ls => match ls with [] => false | _ => true end
+  | IKeys _ _ | IIgnore _ _ => true
+  end.
+
+Definition C17_check_body (i : C17_in) (o : C17_out) : bool :=
   match i, o with
   | IEg w e, OVec w' => close_vec (eg_update w e) w' && on_simplex w' && on_simplex (eg_update w e)
   | IWin win cnt, OWin win' => list_beq (list_beq Z.eqb) (window_update win cnt) win'
@@ -196,6 +210,8 @@ Definition C17_check (i : C17_in) (o : C17_out) : bool :=
       list_beq Qeq_bool (map snd r) p'
   | _, _ => false
   end.
+
+Definition C17_check (i : C17_in) (o : C17_out) : bool := hyp_ok i && C17_check_body i o.
 
 Fixpoint check_all (ins : list C17_in) (outs : list C17_out) : bool :=
   match ins, outs with
